@@ -22,8 +22,9 @@ LEVEL = 'exploration'
 TIERS = {'quick': {'runs': 600, 'wall': 85, 'min_budget': 60}, 'thorough': {'runs': 150000, 'wall': 1500, 'min_budget': 200}}
 RULE = ('one run = one generated signature (1-3 modules with imports, 1-3 sorts incl. hooked, 2-5 constructors of arity 0-2, optional cells, a parametric inj, kseq), 1-5 rewrite rules '
         'with 0-2 variables obtained by abstracting sub-terms of the running configuration, a ground start configuration and a trace of 1-8 rule applications from an independent '
-        'rewriter, delivered (a) as rewrite_event calls on an ExecutionProofExp built through the builder API and (b) as an LLVMRewriteTrace of stub Kore terms through '
-        'from_kore_definition + get_proof_hints + from_proof_hints; 45% of runs inject 1-2 event-stream faults (drop / duplicate / swap / corrupt a substitution value / wrong rule). '
+        'rewriter, delivered (a) as rewrite_event calls on an ExecutionProofExp built through the builder API, (b) as rewrite_event calls with rules and substitutions converted from '
+        'stub Kore terms (from_kore_definition, convert_substitutions) and (c) as an LLVMRewriteTrace (rule event, configuration, rule event, ...) through get_proof_hints + '
+        'from_proof_hints, where 40% of the streams also lose, repeat or swap an item; 45% of runs inject 1-2 event-stream faults (drop / duplicate / swap / corrupt a substitution value / wrong rule). '
         'Against R5, event by event: refusal exactly at the first index where the step does not start at the reached configuration; otherwise claims, advertised conclusions, current '
         'configuration and axioms as R5 says; at the end both serialisations are accepted by the checker and R1 and pass the C03 journal check. '
         'Non-trivial = trace of >= 2 events or a fault that fired; distinct = distinct event-log digests.')
@@ -33,7 +34,7 @@ COMPONENTS = {'k/execution_proof_generation.py, k/kore_convertion/language_seman
               'K rewrite chain': 'model R5', 'rust/src/lib.rs': 'real (harness)', 'documented machine': 'model R1'}
 ASSUMPTIONS = ['the Kore-conversion clause is checked against my reading of pyk\'s field order (the real pyk.kore is absent from the image)']
 PROBES = ['trace_len_ge3', 'mismatching_step_refused', 'rule_with_variables', 'cell_symbol', 'parametric_inj', 'kseq_used', 'import_depth_ge2', 'kore_path', 'api_path',
-          'serialised_and_accepted', 'fault_fired', 'claims_ge2', 'nonfunctional_substitution_refused']
+          'serialised_and_accepted', 'fault_fired', 'claims_ge2', 'nonfunctional_substitution_refused', 'hints_path', 'hints_module_built']
 
 STUBS = os.path.join(VERIF, 'sim', 'stubs')
 
@@ -162,8 +163,14 @@ def generate(rng, tier):
         for _ in range(rng.choice([1, 1, 2])):
             kind = rng.choice(['drop', 'dup', 'swap', 'corrupt', 'wrong_rule'])
             faults.append([kind, rng.randrange(max(1, len(events))), rng.getrandbits(16)])
+    path = rng.choice(['api', 'api', 'kore', 'hints'])
+    item_faults = []
+    if path == 'hints' and rng.random() < 0.4:
+        # the hint stream itself (rule event, configuration, rule event, configuration, ...) loses, repeats or reorders an item
+        for _ in range(rng.choice([1, 1, 2])):
+            item_faults.append([rng.choice(['drop_item', 'dup_item', 'swap_items']), rng.randrange(64)])
     return {'mods': mods, 'sorts': sorts, 'hooked': hooked, 'symbols': symbols, 'rules': rules, 'start': start, 'events': events, 'faults': faults,
-            'path': rng.choice(['api', 'api', 'kore']), 'order': rng.choice([[False, True], [True, False], [False]])}
+            'path': path, 'item_faults': item_faults, 'order': rng.choice([[False, True], [True, False], [False]])}
 
 
 def kmatch(pat, t, s=None):
@@ -270,7 +277,7 @@ def execute(sc, ctx):
             conv_subst = lambda ri, s: {varnum[ri][v]: img(sem, t, {}, sc) for v, t in s.items() if v in varnum[ri]}
             start_cfg = img(sem, sc['start'], {}, sc)
         else:
-            out.probe('kore_path')
+            out.probe('hints_path' if sc['path'] == 'hints' else 'kore_path')
             import pyk.kore.syntax as K
             from proof_generation.llvm_proof_hint import LLVMRuleEvent, LLVMRewriteTrace
             sem = LanguageSemantics.from_kore_definition(kore_definition(K, sc, rule_order))
@@ -302,6 +309,11 @@ def execute(sc, ctx):
     exp_claims = []
     cur = sc['start']
     accepted_steps = []
+    if sc['path'] == 'hints':
+        pe, exp_claims = deliver_hints(sc, events, sem, K, ordinal_of, symtab, out)
+        events = []
+        if pe is None:
+            return out
 
     def state():
         return ([B.py_expand(c) for c in pe._claims], [B.py_expand(p.conc) for p in pe._proof_expressions], B.py_expand(pe.current_configuration))
@@ -389,6 +401,95 @@ def execute(sc, ctx):
             return out
         out.probe('serialised_and_accepted')
     return out
+
+
+def deliver_hints(sc, events, sem, K, ordinal_of, symtab, out):
+    """Third delivery path: the events become an LLVMRewriteTrace (rule event, configuration, rule event, ...), with item
+    faults, and go through get_proof_hints + ExecutionProofExp.from_proof_hints.  Returns (module, expected claims) or (None, _)."""
+    import contextlib, io
+    from proof_generation.k.execution_proof_generation import ExecutionProofExp
+    from proof_generation.k.kore_convertion.rewrite_steps import get_proof_hints
+    from proof_generation.llvm_proof_hint import LLVMRuleEvent, LLVMRewriteTrace
+    import proof_generation.proofs.kore as kl
+    rules = sc['rules']
+    items = []
+    for k in range(len(events)):
+        items += [('rule', k), ('config', k)]
+    for kind, pos in sc.get('item_faults', []):
+        if not items: break
+        i = pos % len(items)
+        fired = True
+        if kind == 'drop_item': del items[i]
+        elif kind == 'dup_item': items.insert(i, items[i])
+        elif i + 1 < len(items): items[i], items[i + 1] = items[i + 1], items[i]
+        else: fired = False
+        if fired:
+            out.fault(kind); out.probe('fault_fired'); out.klass = 'fault-injecting'
+
+    def obj(it):
+        e = events[it[1]]
+        r = rules[e['rule']]
+        if it[0] == 'rule':
+            vs = kvars(r['lhs']); kvars(r['rhs'], vs)
+            return LLVMRuleEvent(ordinal_of[e['rule']], tuple((v, kore_term(K, t, sc)) for v, t in e['subst'].items() if v in vs))
+        return kore_term(K, ksubst(r['rhs'], e['subst']), sc)
+    trace = LLVMRewriteTrace(pre_trace=(), initial_config=kore_term(K, sc['start'], sc), trace=tuple(obj(it) for it in items))
+    # what the reader of the stream is documented to do: a rule event immediately followed by a configuration is one step
+    steps = [events[a[1]] for a, b in zip(items, items[1:]) if a[0] == 'rule' and b[0] == 'config']
+    cur = sc['start']
+    verdict = 'accept'
+    exp_claims, seen = [], []
+    for e in steps:
+        r = rules[e['rule']]
+        l, rr = ksubst(r['lhs'], e['subst']), ksubst(r['rhs'], e['subst'])
+        nonfunctional = [v for v, t in e['subst'].items() if t[0] == 'app' and not symtab[t[1]].get('functional', True)]
+        if l != cur:
+            verdict = 'refuse'
+            break
+        if nonfunctional:
+            verdict = 'either'
+            break
+        if (r['sort'], l, rr) in seen and verdict == 'accept':
+            verdict = 'accept-repeated'
+        seen.append((r['sort'], l, rr))
+        exp_claims.append(B.py_expand(kl.kore_rewrites(sem.get_sort(r['sort']).aml_symbol, img(sem, l, {}, sc), img(sem, rr, {}, sc))))
+        cur = rr
+    out.transitions.add('from_proof_hints/%s/%d' % (verdict, min(len(steps), 3)))
+    out.ops += len(steps)
+    try:
+        with contextlib.redirect_stdout(io.StringIO()):
+            pe = ExecutionProofExp.from_proof_hints(get_proof_hints(trace, sem), sem)
+        raised = None
+    except Exception as ex:
+        raised = ex
+    out.event('hints', len(items), len(steps), verdict, type(raised).__name__ if raised else 'ok')
+    if raised is not None:
+        if verdict == 'accept':
+            out.violate('a hint stream whose steps chain is accepted', 'C20|hints|chaining-stream-refused|' + type(raised).__name__, '%d steps: %s' % (len(steps), str(raised)[:300]))
+        elif verdict == 'accept-repeated':
+            out.violate('a step that starts at the reached configuration is accepted', 'C20|chain|repeated-identical-step-refused', '%d steps (hint stream): %s' % (len(steps), str(raised)[:200]))
+        else:
+            out.probe('mismatching_step_refused' if verdict == 'refuse' else 'nonfunctional_substitution_refused')
+        return None, None
+    if verdict == 'refuse':
+        out.violate('a step that does not start at the reached configuration is refused', 'C20|chain|mismatching-step-accepted',
+                    'hint stream of %d items, %d steps: accepted although a step does not start where the previous one ended' % (len(items), len(steps)))
+        return None, None
+    if verdict == 'either':
+        return None, None
+    got = [B.py_expand(c) for c in pe._claims]
+    if got != exp_claims:
+        out.violate('the module claims exactly the instantiated rewrite of each step, in order', 'C20|chain|claims-differ',
+                    'hint stream: expected %s got %s' % ([B.show_ext(c) for c in exp_claims], [B.show_ext(c) for c in got]))
+        return None, None
+    if [B.py_expand(t.conc) for t in pe._proof_expressions] != exp_claims:
+        out.violate('each proof expression advertises exactly its claim', 'C20|chain|advertised-conclusion-differs', 'hint stream')
+        return None, None
+    if steps and B.py_expand(pe.current_configuration) != B.py_expand(img(sem, cur, {}, sc)):
+        out.violate('the next step must start from the configuration this one reached', 'C20|chain|current-configuration-differs', 'hint stream')
+        return None, None
+    out.probe('hints_module_built')
+    return pe, exp_claims
 
 
 def _where(exc, e, sc):
@@ -517,6 +618,12 @@ def shrink(sc):
             yield dict(sc, order=[o])
     if sc['path'] == 'kore':
         yield dict(sc, path='api')
+    if sc['path'] == 'hints':
+        if sc.get('item_faults'):
+            yield dict(sc, item_faults=[])
+            for i in range(len(sc['item_faults'])):
+                yield dict(sc, item_faults=sc['item_faults'][:i] + sc['item_faults'][i + 1:])
+        yield dict(sc, path='kore', item_faults=[])
 
 
 def describe(sc):
